@@ -42,6 +42,8 @@ const (
 	svgNS   = "http://www.w3.org/2000/svg"
 	xlinkNS = "http://www.w3.org/1999/xlink"
 	xmlNS   = "http://www.w3.org/XML/1998/namespace"
+	xhtmlNS = "http://www.w3.org/1999/xhtml"
+	mathNS  = "http://www.w3.org/1998/Math/MathML"
 )
 
 type Case struct {
@@ -159,6 +161,10 @@ func projectXML(src []byte) (evs []Ev, ds [][]byte, wf bool, why string) {
 				e.NS = "svg"
 			case "":
 				e.NS = "none"
+			case xhtmlNS:
+				e.NS = "html" // rendered content of foreignObject, not editor metadata
+			case mathNS:
+				e.NS = "math"
 			default:
 				e.NS = "foreign"
 				if unbound(t.Name.Space) {
@@ -339,53 +345,155 @@ func project(b []byte, mode string) ([]Ev, [][]byte, bool, string) {
 }
 
 // ---- fixed-point range prefilter (input only; the verdict never depends on it) ------------------
+// spec/SvgPath.tla interprets a path over 32-bit integers at the scale of its most precise number.
+// Whether the INPUT fits is decided here with a small float interpreter (current point, sub-path
+// start, reflected control points); when it does not fit only the grammar clause is evaluated.
+// If this estimate were wrong TLC reports "machinery-range" (exit 2), never a verdict.
 
-var numRe = regexp.MustCompile(`[+-]?(?:\d+\.?\d*|\.\d+)(?:[eE][+-]?\d+)?`)
+var numRe = regexp.MustCompile(`^[+-]?(?:\d+\.?\d*|\.\d+)(?:[eE][+-]?\d+)?`)
 
 func fitsFixedPoint(d []byte) bool {
-	smooth := 0
-	for _, c := range d {
-		if c == 'S' || c == 's' || c == 'T' || c == 't' {
-			smooth++
-		}
-	}
+	arity := map[byte]int{'M': 2, 'L': 2, 'T': 2, 'H': 1, 'V': 1, 'S': 4, 'Q': 4, 'C': 6, 'A': 7, 'Z': 0}
 	K := 0
-	sum := 0.0
-	nums := numRe.FindAll(d, -1)
-	for _, n := range nums {
-		s := string(n)
-		mant, exp := s, 0
-		if i := strings.IndexAny(s, "eE"); i >= 0 {
-			mant = s[:i]
-			e, err := strconv.Atoi(s[i+1:])
-			if err != nil || e > 400 || e < -400 {
-				return false
-			}
-			exp = e
-		}
-		frac := ""
-		if i := strings.IndexByte(mant, '.'); i >= 0 {
-			frac = strings.TrimRight(mant[i+1:], "0")
-		}
-		f, err := strconv.ParseFloat(s, 64)
-		if err != nil || math.IsInf(f, 0) {
-			return false
-		}
-		if f != 0 {
-			if k := len(frac) - exp; k > K {
-				K = k
+	maxabs := 0.0
+	see := func(vs ...float64) {
+		for _, v := range vs {
+			if a := math.Abs(v); a > maxabs {
+				maxabs = a
 			}
 		}
-		sum += math.Abs(f)
 	}
-	// implicit repetitions of smooth commands: every number may belong to one
-	if smooth > 0 {
-		smooth = len(nums)/2 + 1
+	var x, y, sx, sy, px, py float64
+	pk := byte('N')
+	var cmd byte
+	var args []float64
+	step := func(c byte, v []float64) {
+		u := c &^ 0x20
+		rel := c >= 'a'
+		bx, by := 0.0, 0.0
+		if rel {
+			bx, by = x, y
+		}
+		switch u {
+		case 'M', 'L':
+			x, y = bx+v[0], by+v[1]
+			if u == 'M' {
+				sx, sy = x, y
+			}
+			pk = 'N'
+		case 'H':
+			x = bx + v[0]
+			pk = 'N'
+		case 'V':
+			y = by + v[0]
+			pk = 'N'
+		case 'C':
+			see(bx+v[0], by+v[1], bx+v[2], by+v[3])
+			px, py = bx+v[2], by+v[3]
+			x, y = bx+v[4], by+v[5]
+			pk = 'C'
+		case 'S':
+			if pk == 'C' {
+				see(2*x-px, 2*y-py)
+			}
+			see(bx+v[0], by+v[1])
+			px, py = bx+v[0], by+v[1]
+			x, y = bx+v[2], by+v[3]
+			pk = 'C'
+		case 'Q':
+			see(bx+v[0], by+v[1])
+			px, py = bx+v[0], by+v[1]
+			x, y = bx+v[2], by+v[3]
+			pk = 'Q'
+		case 'T':
+			if pk == 'Q' {
+				px, py = 2*x-px, 2*y-py
+			} else {
+				px, py = x, y
+			}
+			see(px, py)
+			x, y = bx+v[0], by+v[1]
+			pk = 'Q'
+		case 'A':
+			see(v[0], v[1], v[2])
+			x, y = bx+v[5], by+v[6]
+			pk = 'N'
+		}
+		see(x, y)
+	}
+	i := 0
+	for i < len(d) {
+		c := d[i]
+		switch {
+		case c == ' ' || c == ',' || c == '\t' || c == '\n' || c == '\r':
+			i++
+		case arity[c&^0x20] > 0 || c == 'Z' || c == 'z':
+			if c != 'e' && c != 'E' {
+				cmd = c
+				args = args[:0]
+				if c == 'Z' || c == 'z' {
+					x, y = sx, sy
+					pk = 'N'
+				}
+				i++
+				continue
+			}
+			return true
+		default:
+			if cmd == 0 {
+				return true // not path data: the relation says so itself
+			}
+			if (cmd == 'A' || cmd == 'a') && (len(args)%7 == 3 || len(args)%7 == 4) && (c == '0' || c == '1') {
+				args = append(args, float64(c-'0'))
+				i++
+			} else {
+				m := numRe.Find(d[i:])
+				if m == nil {
+					return true
+				}
+				s := string(m)
+				mant, exp := s, 0
+				if j := strings.IndexAny(s, "eE"); j >= 0 {
+					mant = s[:j]
+					e, err := strconv.Atoi(s[j+1:])
+					if err != nil || e > 400 || e < -400 {
+						return false
+					}
+					exp = e
+				}
+				frac := ""
+				if j := strings.IndexByte(mant, '.'); j >= 0 {
+					frac = strings.TrimRight(mant[j+1:], "0")
+				}
+				f, err := strconv.ParseFloat(s, 64)
+				if err != nil || math.IsInf(f, 0) {
+					return false
+				}
+				if f != 0 {
+					if k := len(frac) - exp; k > K {
+						K = k
+					}
+				}
+				see(f)
+				args = append(args, f)
+				i += len(m)
+			}
+			ar := arity[cmd&^0x20]
+			if ar > 0 && len(args) == ar {
+				step(cmd, args)
+				args = args[:0]
+				if cmd == 'M' {
+					cmd = 'L'
+				} else if cmd == 'm' {
+					cmd = 'l'
+				}
+			}
+		}
 	}
 	if K > 8 {
 		return false
 	}
-	return float64(2*smooth+3)*sum*math.Pow(10, float64(K)) < 4.0e8
+	return maxabs*math.Pow(10, float64(K)) < 4.5e8
 }
 
 // ---- cases ------------------------------------------------------------------------------------
